@@ -13,7 +13,7 @@ Record snap : Type := mkSnap
 
 Inductive res : Type := ROk | RRej | RPanic.
 Record cfg : Type := mkCfg
-  { c_min_tip : Z; c_pc : list addr; c_pv : list addr; c_pn : list addr; c_ac : list addr; c_se : list addr; c_fix : bool; c_mg : bool }.
+  { c_min_tip : Z; c_pc : list addr; c_pv : list addr; c_pn : list addr; c_ac : list addr; c_se : list addr; c_fix : bool; c_mg : bool; c_rr : list addr }.
 (* a whole history: starting snapshot, then (operation, result, snapshot after; None = unchanged) *)
 Inductive c16_case : Type := CHist (c : nat) (start : snap) (steps : list (op * res * option snap)).
 
@@ -36,7 +36,7 @@ Fixpoint lookup_bal (l : list ((acct * string) * Z)) (x : acct) (d : string) : Z
 Definition state_of (c : cfg) (sn : snap) : state :=
   mkState (o_recs sn) (o_idx sn) (o_reqs sn)
           (fold_left Z.max (map r_id (o_recs sn)) 0) (fold_left Z.max (map q_id (o_reqs sn)) 0)
-          (o_ukeys sn) (c_min_tip c) (c_pc c) (c_pc c) (c_pv c) (c_pn c) (c_ac c) (c_se c) [] (lookup_bal (o_bal sn)) (c_fix c) (c_mg c).
+          (o_ukeys sn) (c_min_tip c) (c_pc c) (c_pc c) (c_pv c) (c_pn c) (c_ac c) (c_se c) [] (lookup_bal (o_bal sn)) (c_fix c) (c_mg c) (c_rr c).
 
 Definition snap_matches (s : state) (sn : snap) : bool :=
   list_eqb rec_eqb (recs s) (o_recs sn) && set_eqb ent_eqb (idx s) (o_idx sn) && list_eqb req_eqb (reqs s) (o_reqs sn)
@@ -80,7 +80,7 @@ Definition kind (o : op) : string :=
   | ORegister _ _ _ => "register" | ODelete _ _ => "delete" | ORequest _ _ _ _ _ => "request"
   | OHandle _ _ _ => "handle" | OCancel _ _ => "cancel" | OClaimCouncilor _ _ _ => "claimcouncilor"
   | OClaimValidator _ _ _ => "claimvalidator" | OSetKeysProp _ => "setkeysprop" | OSetKeysMsg _ _ => "setkeysmsg"
-  | ORotate _ _ _ => "rotate" end.
+  | ORotate _ _ _ => "rotate" | ORotateRR _ _ _ => "rotaterr" | OGenesis => "genesis" end.
 
 (* clause "unique": no two addresses hold the same value under a key declared unique; keys are
    compared after case folding *)
@@ -96,14 +96,14 @@ Definition unique_ok (pre post : snap) : bool :=
 
 (* who may write records in this operation: the signer; property changes write none *)
 Definition writer (o : op) : option addr :=
-  match o with OSetKeysProp _ | OSetKeysMsg _ _ => None | _ => Some (signer o) end.
+  match o with OSetKeysProp _ | OSetKeysMsg _ _ | OGenesis => None | _ => Some (signer o) end.
 Definition is_writer (o : op) (a : addr) : bool := match writer o with Some w => w =? a | None => false end.
 
 (* clause "owner": records of other addresses are neither created, changed nor deleted; a rotation
    a -> b moves a's records unchanged to b *)
 Definition owner_ok (o : op) (pre post : snap) : bool :=
   match o with
-  | ORotate a b _ =>
+  | ORotate a b _ | ORotateRR a b _ =>
       forallb (fun r => match find_rec (o_recs post) (r_id r) with
                         | Some r' => if r_owner r =? a
                                      then rec_eqb r' (mkRec (r_id r) b (r_key r) (r_val r) (r_date r) (r_ver r))
@@ -193,6 +193,12 @@ Definition rotate_ok (a b : addr) (pre post : snap) : bool :=
   && list_eqb req_eqb (o_reqs post)
        (map (fun q => mkReq (q_id q) (ren a b (q_addr q)) (ren a b (q_ver q)) (q_rids q) (q_denom q) (q_amt q) (q_date q)) (o_reqs pre)).
 
+(* the token-holder rotation moves no balance *)
+Definition rotate_rr_ok (a b : addr) (pre post : snap) : bool :=
+  forallb (fun e => let '((x, d), n) := e in n =? lookup_bal (o_bal pre) x d) (o_bal post)
+  && list_eqb req_eqb (o_reqs post)
+       (map (fun q => mkReq (q_id q) (ren a b (q_addr q)) (ren a b (q_ver q)) (q_rids q) (q_denom q) (q_amt q) (q_date q)) (o_reqs pre)).
+
 (* clause "reuse": request ids are never used twice *)
 Definition maxq (sn : snap) (m : Z) : Z := fold_left Z.max (map q_id (o_reqs sn)) m.
 
@@ -211,6 +217,8 @@ Definition step_clauses (start pre : snap) (o : op) (r : res) (osn : option snap
       (if escrow_ok start post then [] else [tag "escrow" o ""]) ++
       (match o with
        | ORotate a b _ => if rotate_ok a b pre post then [] else [tag "rotate" o ""]
+       | ORotateRR a b _ => if rotate_rr_ok a b pre post then [] else [tag "rotate" o ""]
+       | OGenesis => [tag "genesis" o ""]          (* export + import must change nothing observable *)
        | _ => (if authority_ok o pre post then [] else [tag "authority" o ""]) ++
               (if payout_ok o pre post then [] else [tag "payout" o ""]) end) ++
       (if forallb (fun q => seen <? q_id q) (created pre post) then [] else [tag "reuse" o ""])
